@@ -87,7 +87,7 @@ Qed.
 Lemma skip_line_length : forall l, (List.length (skip_line l) <= List.length l)%nat.
 Proof.
   induction l as [|c l IH]; simpl; [lia|].
-  destruct ((c =? 10) || (c =? 0)); simpl; lia.
+  destruct (c =? 10); simpl; lia.
 Qed.
 
 Lemma skip_trivia_length : forall f l, (List.length (skip_trivia f l) <= List.length l)%nat.
@@ -135,15 +135,13 @@ Proof.
   induction f as [|f IH]; intros d l acc; [simpl; lia|].
   destruct l as [|x [|c l1]]; [simpl; lia|simpl; lia|].
   cbn [read_string adv peek].
-  destruct (c =? 0); [simpl; lia|].
   destruct (c =? d); [simpl; lia|].
   destruct (c =? 92).
   - destruct l1 as [|e l2]. 
     + destruct (0 =? 10); simpl; try lia. specialize (IH d [] acc). simpl in IH. lia.
     + destruct (e =? 10).
       * specialize (IH d (e :: l2) acc). simpl in *. lia.
-      * destruct (e =? 0); [simpl; lia|].
-        match goal with |- context [read_string f d ?x ?y] => specialize (IH d x y) end.
+      * match goal with |- context [read_string f d ?x ?y] => specialize (IH d x y) end.
         simpl in *. lia.
   - match goal with |- context [read_string f d ?x ?y] => specialize (IH d x y) end.
     simpl in *. lia.
@@ -155,7 +153,6 @@ Proof.
   induction f as [|f IH]; intros l acc; [simpl; lia|].
   destruct l as [|x [|c l1]]; [simpl; lia|simpl; lia|].
   cbn [read_regexp adv].
-  destruct (c =? 0); [simpl; lia|].
   destruct (c =? 47).
   - pose proof (collect_flags_length l1 []) as Hc.
     destruct (collect_flags l1 []) as [fl l2]. simpl in Hc.
@@ -173,7 +170,6 @@ Proof.
   intros f d x l acc.
   destruct l as [|c l1]; [simpl; lia|].
   cbn [read_string adv peek].
-  destruct (c =? 0); [simpl; lia|].
   destruct (c =? d); [simpl; lia|].
   destruct (c =? 92).
   - destruct l1 as [|e l2].
@@ -181,8 +177,7 @@ Proof.
       pose proof (read_string_length f d [] acc) as IH. simpl in IH. lia.
     + destruct (e =? 10).
       * pose proof (read_string_length f d (e :: l2) acc). simpl in *. lia.
-      * destruct (e =? 0); [simpl; lia|].
-        match goal with |- context [read_string f d ?x ?y] =>
+      * match goal with |- context [read_string f d ?x ?y] =>
           pose proof (read_string_length f d x y) end.
         simpl in *. lia.
   - match goal with |- context [read_string f d ?x ?y] =>
@@ -196,7 +191,6 @@ Proof.
   intros f x l acc.
   destruct l as [|c l1]; [simpl; lia|].
   cbn [read_regexp adv].
-  destruct (c =? 0); [simpl; lia|].
   destruct (c =? 47).
   - pose proof (collect_flags_length l1 []) as Hc.
     destruct (collect_flags l1 []) as [fl l2]. simpl in Hc.
@@ -344,14 +338,15 @@ Proof.
   apply skip_trivia_fuel; rewrite ?app_length; lia.
 Qed.
 
+(* a comment body is any text without a newline (NUL included: the lexer
+   no longer takes the character 0 for the end of the input) *)
 Lemma skip_line_body : forall body l,
-  forallb (fun c => negb (c =? 10) && negb (c =? 0)) body = true ->
+  forallb (fun c => negb (c =? 10)) body = true ->
   skip_line (body ++ 10 :: l) = 10 :: l.
 Proof.
   induction body as [|c body IH]; intros l H; simpl in *; [reflexivity|].
-  apply andb_true_iff in H. destruct H as [H1 H2].
-  apply andb_true_iff in H1. destruct H1 as [Ha Hb].
-  apply negb_true_iff in Ha, Hb. rewrite Ha, Hb. simpl. auto.
+  apply andb_true_iff in H. destruct H as [Ha H2].
+  apply negb_true_iff in Ha. rewrite Ha. auto.
 Qed.
 
 Lemma skip_trivia_S_comment : forall f r,
@@ -359,7 +354,7 @@ Lemma skip_trivia_S_comment : forall f r,
 Proof. reflexivity. Qed.
 
 Lemma leading_comment : forall (body l : str) (prev : tokty),
-  forallb (fun c => negb (c =? 10) && negb (c =? 0)) body = true ->
+  forallb (fun c => negb (c =? 10)) body = true ->
   next_token (47 :: 47 :: body ++ 10 :: l) prev = next_token l prev.
 Proof.
   intros body l prev H. rewrite !next_token_eq. f_equal.
@@ -635,28 +630,18 @@ Qed.
 
 Lemma read_string_S : forall f d x c r acc,
   read_string (S f) d (x :: c :: r) acc =
-  if c =? 0 then (None, c :: r)
-  else if c =? d then (Some (rev acc), c :: r)
+  if c =? d then (Some (rev acc), c :: r)
   else if c =? 92 then
     if cur r =? 10 then read_string f d r acc
     else match r with
          | [] => (None, [])
          | e :: _ =>
-             if e =? 0 then (None, r) else
              read_string f d r
                ((if e =? 110 then 10 else if e =? 114 then 13
                  else if e =? 116 then 9 else e) :: acc)
          end
   else read_string f d (c :: r) (c :: acc).
 Proof. intros. destruct r; reflexivity. Qed.
-
-Lemma nul_free_cons : forall c s,
-  nul_free (c :: s) = true -> c <> 0 /\ nul_free s = true.
-Proof.
-  intros c s H. unfold nul_free in *. simpl in H.
-  apply andb_true_iff in H. destruct H as [H1 H2].
-  apply negb_true_iff, N.eqb_neq in H1. auto.
-Qed.
 
 Lemma is_quote_cases : forall q, is_quote q = true -> q = 34 \/ q = 39.
 Proof.
@@ -668,18 +653,15 @@ Lemma rev_cons_app : forall (c : N) acc s, rev (c :: acc) ++ s = rev acc ++ c ::
 Proof. intros. simpl. rewrite <- app_assoc. reflexivity. Qed.
 
 Lemma read_string_quote_body : forall q s f x acc tl,
-  is_quote q = true -> nul_free s = true ->
+  is_quote q = true ->
   (List.length (quote_body q s) < f)%nat ->
   read_string f q (x :: quote_body q s ++ q :: tl) acc = (Some (rev acc ++ s), q :: tl).
 Proof.
-  intros q s. induction s as [|c s IH]; intros f x acc tl Hq Hs Hf.
+  intros q s. induction s as [|c s IH]; intros f x acc tl Hq Hf.
   - destruct f as [|f]; [simpl in Hf; lia|].
     cbn [quote_body app]. rewrite read_string_S.
-    apply is_quote_cases in Hq.
-    replace (q =? 0) with false by (symmetry; apply N.eqb_neq; lia).
     rewrite N.eqb_refl, app_nil_r. reflexivity.
-  - apply nul_free_cons in Hs. destruct Hs as [Hc Hs].
-    destruct f as [|f]; [simpl in Hf; lia|].
+  - destruct f as [|f]; [simpl in Hf; lia|].
     pose proof (is_quote_cases q Hq) as Hq'.
     cbn [quote_body] in *.
     destruct ((c =? 92) || (c =? q)) eqn:E.
@@ -687,9 +669,8 @@ Proof.
       { apply orb_true_iff in E. destruct E as [E|E]; apply N.eqb_eq in E; lia. }
       cbn [app]. rewrite read_string_S. cbn [cur].
       replace (92 =? q) with false by (symmetry; apply N.eqb_neq; lia).
-      change (92 =? 0) with false. change (92 =? 92) with true. cbv iota.
+      change (92 =? 92) with true. cbv iota.
       replace (c =? 10) with false by (symmetry; apply N.eqb_neq; lia).
-      replace (c =? 0) with false by (symmetry; apply N.eqb_neq; lia).
       replace (c =? 110) with false by (symmetry; apply N.eqb_neq; lia).
       replace (c =? 114) with false by (symmetry; apply N.eqb_neq; lia).
       replace (c =? 116) with false by (symmetry; apply N.eqb_neq; lia).
@@ -698,7 +679,6 @@ Proof.
       * cbn [app List.length] in Hf. lia.
     + apply orb_false_iff in E. destruct E as [E1 E2].
       cbn [app]. rewrite read_string_S.
-      replace (c =? 0) with false by (symmetry; apply N.eqb_neq; lia).
       rewrite E1, E2.
       rewrite IH; auto.
       * rewrite rev_cons_app. reflexivity.
@@ -706,31 +686,27 @@ Proof.
 Qed.
 
 Lemma read_string_quote_body_esc : forall q s f x acc tl,
-  is_quote q = true -> nul_free s = true ->
+  is_quote q = true ->
   (List.length (quote_body_esc q s) < f)%nat ->
   read_string f q (x :: quote_body_esc q s ++ q :: tl) acc = (Some (rev acc ++ s), q :: tl).
 Proof.
-  intros q s. induction s as [|c s IH]; intros f x acc tl Hq Hs Hf.
+  intros q s. induction s as [|c s IH]; intros f x acc tl Hq Hf.
   - destruct f as [|f]; [simpl in Hf; lia|].
     cbn [quote_body_esc app]. rewrite read_string_S.
-    apply is_quote_cases in Hq.
-    replace (q =? 0) with false by (symmetry; apply N.eqb_neq; lia).
     rewrite N.eqb_refl, app_nil_r. reflexivity.
-  - apply nul_free_cons in Hs. destruct Hs as [Hc Hs].
-    destruct f as [|f]; [simpl in Hf; lia|].
+  - destruct f as [|f]; [simpl in Hf; lia|].
     pose proof (is_quote_cases q Hq) as Hq'.
     cbn [quote_body_esc] in *.
-    assert (Hesc : forall e e', e <> 0 -> e <> 10 ->
+    assert (Hesc : forall e e', e <> 10 ->
               (if e =? 110 then 10 else if e =? 114 then 13
                else if e =? 116 then 9 else e) = e' ->
               (List.length (quote_body_esc q s) < f)%nat ->
               read_string (S f) q (x :: 92 :: e :: quote_body_esc q s ++ q :: tl) acc =
               (Some (rev acc ++ e' :: s), q :: tl)).
-    { intros e e' He0 He10 He' Hf'. rewrite read_string_S. cbn [cur].
+    { intros e e' He10 He' Hf'. rewrite read_string_S. cbn [cur].
       replace (92 =? q) with false by (symmetry; apply N.eqb_neq; lia).
-      change (92 =? 0) with false. change (92 =? 92) with true. cbv iota.
+      change (92 =? 92) with true. cbv iota.
       replace (e =? 10) with false by (symmetry; apply N.eqb_neq; lia).
-      replace (e =? 0) with false by (symmetry; apply N.eqb_neq; lia).
       rewrite He'. rewrite IH; auto. rewrite rev_cons_app. reflexivity. }
     destruct ((c =? 92) || (c =? q)) eqn:E;
       [|destruct (c =? 10) eqn:E10; [|destruct (c =? 13) eqn:E13; [|destruct (c =? 9) eqn:E9]]];
@@ -747,7 +723,6 @@ Proof.
     + apply N.eqb_eq in E9. subst c. apply Hesc; try lia. reflexivity.
     + apply orb_false_iff in E. destruct E as [E1 E2].
       rewrite read_string_S.
-      replace (c =? 0) with false by (symmetry; apply N.eqb_neq; lia).
       rewrite E1, E2.
       rewrite IH; auto.
       * rewrite rev_cons_app. reflexivity.
@@ -763,21 +738,22 @@ Proof.
   - replace (q =? 47) with false by (symmetry; apply N.eqb_neq; lia). reflexivity.
 Qed.
 
+(* the contents are ANY text, the character 0 included *)
 Lemma string_roundtrip : forall (q : N) (s : str),
-  is_quote q = true -> nul_free s = true ->
+  is_quote q = true ->
   lex (quote q s) = Some [mkTok TString s; mkTok TEOF []].
 Proof.
-  intros q s Hq Hs. eapply lex_single with (p' := TString); [|discriminate].
+  intros q s Hq. eapply lex_single with (p' := TString); [|discriminate].
   unfold quote. rewrite next_token_eq, skip_trivia_quote, nt_body_quote by assumption.
   rewrite read_string_quote_body; auto.
   cbn [List.length]. rewrite app_length. simpl. lia.
 Qed.
 
 Lemma string_escapes : forall (q : N) (s : str),
-  is_quote q = true -> nul_free s = true ->
+  is_quote q = true ->
   lex (quote_esc q s) = Some [mkTok TString s; mkTok TEOF []].
 Proof.
-  intros q s Hq Hs. eapply lex_single with (p' := TString); [|discriminate].
+  intros q s Hq. eapply lex_single with (p' := TString); [|discriminate].
   unfold quote_esc. rewrite next_token_eq, skip_trivia_quote, nt_body_quote by assumption.
   rewrite read_string_quote_body_esc; auto.
   cbn [List.length]. rewrite app_length. simpl. lia.
@@ -788,8 +764,7 @@ Qed.
 
 Lemma read_regexp_S : forall f x c r acc,
   read_regexp (S f) (x :: c :: r) acc =
-  if c =? 0 then (None, c :: r)
-  else if c =? 47 then
+  if c =? 47 then
     let '(flags, l2) := collect_flags r [] in
     if flags_ok flags then
       let body := rev acc in
@@ -800,26 +775,24 @@ Lemma read_regexp_S : forall f x c r acc,
 Proof. reflexivity. Qed.
 
 Lemma read_regexp_re_body : forall s f x acc tl,
-  nul_free s = true -> (List.length (re_body s) < f)%nat ->
+  (List.length (re_body s) < f)%nat ->
   read_regexp f (x :: re_body s ++ 47 :: tl) acc =
   read_regexp 1 (47 :: 47 :: tl) (rev s ++ acc).
 Proof.
-  induction s as [|c s IH]; intros f x acc tl Hs Hf.
+  induction s as [|c s IH]; intros f x acc tl Hf.
   - destruct f as [|f]; [simpl in Hf; lia|].
     cbn [re_body app rev]. rewrite !read_regexp_S. reflexivity.
-  - apply nul_free_cons in Hs. destruct Hs as [Hc Hs].
-    destruct f as [|f]; [simpl in Hf; lia|].
+  - destruct f as [|f]; [simpl in Hf; lia|].
     cbn [re_body] in *.
     replace (rev (c :: s) ++ acc) with (rev s ++ c :: acc)
       by (simpl; rewrite <- app_assoc; reflexivity).
     destruct ((c =? 92) || (c =? 47)) eqn:E; cbn [app List.length] in Hf |- *.
     + rewrite read_regexp_S.
-      change (92 =? 0) with false. change (92 =? 47) with false.
+      change (92 =? 47) with false.
       change (92 =? 92) with true. cbv iota. cbn [cur].
       apply IH; auto. lia.
     + apply orb_false_iff in E. destruct E as [E1 E2].
       rewrite read_regexp_S.
-      replace (c =? 0) with false by (symmetry; apply N.eqb_neq; lia).
       rewrite E1, E2. apply IH; auto. lia.
 Qed.
 
@@ -833,14 +806,14 @@ Proof.
 Qed.
 
 Lemma next_token_re_lit : forall s tl,
-  s <> [] -> nul_free s = true ->
+  s <> [] ->
   next_token (47 :: re_body s ++ 47 :: tl) TEmpty =
   match read_regexp 1 (47 :: 47 :: tl) (rev s) with
   | (Some r, l') => (mkTok TRegexp r, l', TEmpty)
   | (None, l') => (mkTok TIllegal [], l', TEmpty)
   end.
 Proof.
-  intros s tl Hn Hs. rewrite next_token_eq.
+  intros s tl Hn. rewrite next_token_eq.
   rewrite skip_trivia_none;
     [| reflexivity | rewrite re_body_head by assumption; reflexivity].
   rewrite nt_body_slash_re by reflexivity.
@@ -849,11 +822,12 @@ Proof.
   - cbn [List.length]. rewrite app_length. simpl. lia.
 Qed.
 
+(* the pattern is ANY non-empty text, the character 0 included *)
 Lemma regexp_literal : forall s : str,
-  s <> [] -> nul_free s = true ->
+  s <> [] ->
   lex (re_lit s) = Some [mkTok TRegexp s; mkTok TEOF []].
 Proof.
-  intros s Hn Hs. eapply lex_single with (p' := TEmpty); [|discriminate].
+  intros s Hn. eapply lex_single with (p' := TEmpty); [|discriminate].
   unfold re_lit. rewrite next_token_re_lit by assumption.
   rewrite read_regexp_S. cbn. rewrite rev_involutive. reflexivity.
 Qed.
@@ -862,29 +836,54 @@ Lemma is_letter_105 : is_letter 105 = true.
 Proof. vm_compute. reflexivity. Qed.
 
 Lemma regexp_flag_i : forall s : str,
-  s <> [] -> nul_free s = true ->
+  s <> [] ->
   lex (re_lit s ++ [105]) = Some [mkTok TRegexp (L "(?i)" ++ s); mkTok TEOF []].
 Proof.
-  intros s Hn Hs. eapply lex_single with (p' := TEmpty); [|discriminate].
+  intros s Hn. eapply lex_single with (p' := TEmpty); [|discriminate].
   unfold re_lit. cbn [app]. rewrite <- app_assoc. cbn [app].
   rewrite next_token_re_lit by assumption.
   rewrite read_regexp_S.
-  change (47 =? 0) with false. change (47 =? 47) with true. cbv iota.
+  change (47 =? 47) with true. cbv iota.
   cbn [collect_flags]. rewrite is_letter_105. cbn [memN app collect_flags].
   change (flags_ok [105]) with true. cbv iota zeta.
   rewrite rev_involutive. reflexivity.
 Qed.
 
 Lemma regexp_bad_flag : forall (s : str) (f : N),
-  s <> [] -> nul_free s = true -> is_letter f = true -> f <> 105 -> f <> 109 ->
+  s <> [] -> is_letter f = true -> f <> 105 -> f <> 109 ->
   lex (re_lit s ++ [f]) = Some [mkTok TIllegal []; mkTok TEOF []].
 Proof.
-  intros s f Hn Hs Hl H1 H2. eapply lex_single with (p' := TEmpty); [|discriminate].
+  intros s f Hn Hl H1 H2. eapply lex_single with (p' := TEmpty); [|discriminate].
   unfold re_lit. cbn [app]. rewrite <- app_assoc. cbn [app].
   rewrite next_token_re_lit by assumption.
   rewrite read_regexp_S.
-  change (47 =? 0) with false. change (47 =? 47) with true. cbv iota.
+  change (47 =? 47) with true. cbv iota.
   cbn [collect_flags]. rewrite Hl. cbn [memN app collect_flags].
   unfold flags_ok. cbn [forallb].
   apply N.eqb_neq in H1, H2. rewrite H1, H2. reflexivity.
 Qed.
+
+(* ------------------------------------------------------------------ *)
+(* The character 0 inside a string literal, a regexp literal or a comment
+   is an ordinary character (it used to end them: the Go lexer took NUL
+   for its end-of-input mark).  Where a token starts it is still illegal. *)
+
+(* "a<NUL>b" *)
+Lemma string_with_nul :
+  lex [34; 97; 0; 98; 34] = Some [mkTok TString [97; 0; 98]; mkTok TEOF []].
+Proof. vm_compute; reflexivity. Qed.
+
+(* // c <NUL> d<newline>1 *)
+Lemma comment_with_nul :
+  lex [47; 47; 32; 99; 32; 0; 32; 100; 10; 49] = Some [mkTok TInt [49]; mkTok TEOF []].
+Proof. vm_compute; reflexivity. Qed.
+
+(* /a<NUL>b/ *)
+Lemma regexp_with_nul :
+  lex [47; 97; 0; 98; 47] = Some [mkTok TRegexp [97; 0; 98]; mkTok TEOF []].
+Proof. vm_compute; reflexivity. Qed.
+
+(* <NUL> where a token starts: still ILLEGAL, and lexing goes on after it *)
+Lemma nul_at_token_start :
+  lex [49; 32; 0; 50] = Some [mkTok TInt [49]; mkTok TIllegal []; mkTok TInt [50]; mkTok TEOF []].
+Proof. vm_compute; reflexivity. Qed.
